@@ -372,7 +372,7 @@ func (jp *jobProvider) refreshFile(stat os.FileInfo, filename string, symlink st
 
 	if has {
 		if isWrite {
-			jp.checkFileWasTruncated(job, stat.Size())
+			jp.checkFileWasTruncated(job)
 		}
 		job.mu.Lock()
 		jp.tryResumeJobAndUnlock(job, filename)
@@ -389,10 +389,19 @@ func (jp *jobProvider) refreshFile(stat os.FileInfo, filename string, symlink st
 	jp.addJob(file, stat, filename, symlink)
 }
 
-func (jp *jobProvider) checkFileWasTruncated(job *Job, size int64) {
-	lastOffset := job.seek(0, io.SeekCurrent, "check file truncation")
+func (jp *jobProvider) checkFileWasTruncated(job *Job) {
+	// read-only on purpose: while the job is being read its offsets belong to the worker, and the size has to be
+	// observed after the position -- a size taken earlier (e.g. by the stat that came with the notification) may
+	// already be behind the read position of a file that is appended and read at the same time
+	job.mu.Lock()
+	pos, errSeek := job.file.Seek(0, io.SeekCurrent)
+	stat, errStat := job.file.Stat()
+	job.mu.Unlock()
+	if errSeek != nil || errStat != nil {
+		return
+	}
 
-	if lastOffset > size {
+	if pos > stat.Size() {
 		jp.truncateJob(job)
 	}
 }
